@@ -14,7 +14,7 @@ ANCHORS = ["timestep/update_time.py", "timestep/check_if_model_is_finished.py",
 RULE = ("window shapes: start on / 1-60 days before the planting date, end after harvest / "
         "mid-season / on the planting anniversary +-1 day / 28 Feb of a leap year / long, 1-4 "
         "seasons incl. seasons spanning New Year, off-season on/off, early user harvest dates, "
-        "crops of 90-365 days, thermal crops; one third of the runs are stepped through a random "
+        "crops of 90-365 days (a twelve-month crop harvested on the planting anniversary), thermal crops; one third of the runs are stepped through a random "
         "composition of run_model(num_steps=k) calls; non-trivial = >= 20 executed steps and >= 1 "
         "in-season day; distinct = (spec digest, stepping)")
 ASSUMPTIONS = [
